@@ -203,3 +203,93 @@ func (f *fastEvaluator) eval(t *Term, model []uint64) uint64 {
 	f.stamp[t.id] = f.gen
 	return r
 }
+
+// ---------------------------------------------------------------------------
+// Single-variable domain pre-filter. For every small-domain variable (a byte, a table
+// selector) the set of values allowed by the single-variable conjuncts of the path
+// condition is tracked exactly. A condition over one such variable that is constant on
+// that set is folded (no fork, no query); everything else goes to the solver. This is
+// constraint propagation in front of the SMT solver, not a replacement for it: it never
+// decides a condition the path condition leaves open.
+
+type varDomain struct {
+	vals []uint64 // allowed values, ascending
+}
+
+func (i *interpreter) domainOf(v *Term) *varDomain {
+	if i.doms == nil {
+		i.doms = map[int]*varDomain{}
+	}
+	idx := int(v.val)
+	if d, ok := i.doms[idx]; ok {
+		return d
+	}
+	n := 0
+	switch {
+	case v.w == 8:
+		n = 256
+	case v.w == 1:
+		n = 2
+	default:
+		if dn, ok := i.domains[idx]; ok && dn <= 1024 {
+			n = dn
+		}
+	}
+	if n == 0 {
+		return nil
+	}
+	d := &varDomain{vals: make([]uint64, n)}
+	for k := range d.vals {
+		d.vals[k] = uint64(k)
+	}
+	i.doms[idx] = d
+	return d
+}
+
+// domainEval classifies c over the current domain of its single variable:
+// +1 always true, -1 always false, 0 open (or not applicable).
+func (i *interpreter) domainEval(c *Term, narrow bool, keep bool) int {
+	info := i.termInfo(c)
+	if info.n != 1 {
+		return 0
+	}
+	d := i.domainOf(info.v)
+	if d == nil {
+		return 0
+	}
+	if info.size > 4096 {
+		return 0
+	}
+	model := i.scratchModel(int(info.v.val) + 1)
+	fe := i.fastEval()
+	nt := 0
+	var kept []uint64
+	for _, x := range d.vals {
+		model[int(info.v.val)] = x
+		fe.gen++
+		t := fe.eval(c, model) != 0
+		if t {
+			nt++
+		}
+		if narrow && t == keep {
+			kept = append(kept, x)
+		}
+	}
+	if narrow {
+		d.vals = kept
+	}
+	switch {
+	case nt == len(d.vals) && !narrow:
+		return 1
+	case nt == 0 && !narrow:
+		return -1
+	}
+	return 0
+}
+
+func (i *interpreter) scratchModel(n int) []uint64 {
+	if len(i.scratch) < n {
+		i.scratch = make([]uint64, n+16)
+	}
+	return i.scratch
+}
